@@ -17,7 +17,8 @@ Definition created_by (s : lst) (o : lop) : list Z :=
   match o with
   | OCreateNode id | OCreateCl id | OCreateGrp id _ | OCreateZst id => [id]
   | OCreateRef id => [id; id + 500]
-  | OChild h => match lget s h with LNode id => [id + 100] | _ => [] end
+  | OChild h | OChildMut h => match lget s h with LNode id => [id + 100] | _ => [] end
+  | OGrpChildMut h => match lget s h with LGrp id _ | LGrpC id => [id + 100] | _ => [] end
   | OIntoChild h => match lget s h with LNode id => [id + 200] | _ => [] end
   | OGrpIntoChild h => match lget s h with LGrp id _ | LGrpC id => [id + 200] | _ => [] end
   | OClone h => match lget s h with LCl id | LGrpC id => [id + 1000] | _ => [] end
@@ -124,7 +125,7 @@ Theorem lstep_inv s o : LInv s ->
   (uses_borrowed o = false -> leaked s' = leaked s).
 Proof.
   intros I. pose proof I as (IL & IV & IK).
-  destruct o as [id|id|id|id e|h|h|h|h|h|h|h|h|h|id|id|id|h|h]; cbn [lstep created_by uses_borrowed].
+  destruct o as [id|id|id|id e|h|h|h|h|h|h|h|h|h|id|id|id|h|h|h|h]; cbn [lstep created_by uses_borrowed].
   - exact (spawn_step s (LNode id) 0 I eq_refl).
   - exact (spawn_step s (LCl id) 8 I eq_refl).
   - exact (spawn_step s (LRef id) 9 I eq_refl).
@@ -170,6 +171,10 @@ Proof.
       [ replace (level s + 0) with (level s - 1 + 1) by lia; replace (live s + 0) with (live s - nz 1 + nz 1) by lia; exact S
       | rewrite E; rewrite <- app_assoc; cbn [app];
         (etransitivity; [apply Permutation_app_tail, P|]); rewrite <- app_assoc; apply Permutation_app_head; apply perm_swap ].
+  - destruct (lget s h) eqn:G; try exact (rej_step s 18 (OCall h) I).
+    exact (spawn_step s (LChild (id + 100)) 18 I eq_refl).
+  - destruct (lget s h) eqn:G; try exact (rej_step s 19 (OCall h) I).
+    all: exact (spawn_step s (LChild (id + 100)) 19 I eq_refl).
 Qed.
 
 (* ---- whole histories ------------------------------------------------------------------------------------------ *)
